@@ -71,15 +71,6 @@ func specsC02(tier string) []seqmc.Spec {
 		for _, ts := range tss {
 			cfg.ops = append(cfg.ops, op{kind: "multi", target: "t", ts: ts, ups: []updSpec{{ps("x"), 1}}, dels: []pathSpec{ps("y")}})
 		}
-		// bundles of several updates: each member is judged on its own (accepted,
-		// stale, identical, suppressed as unchanged) and every leaf ends up holding
-		// ITS update, whatever happened to the members before it
-		for _, ts := range tss {
-			cfg.ops = append(cfg.ops,
-				op{kind: "multi", target: "t", ts: ts, ups: []updSpec{{ps("x"), 1}, {ps("y/z"), 1}}},
-				op{kind: "multi", target: "t", ts: ts, ups: []updSpec{{ps("x"), 1}, {ps("y/z"), 2}}},
-				op{kind: "multi", target: "t", ts: ts, ups: []updSpec{{ps("y/z"), 2}, {ps("x"), 2}, {ps("y/z"), 1}}})
-		}
 		dts := append(append([]int64{}, tss...), tss[len(tss)-1]+1)
 		for _, q := range []string{"x", "y/z", "y", "*", "y/*", "k"} {
 			for _, ts := range dts {
@@ -87,6 +78,29 @@ func specsC02(tier string) []seqmc.Spec {
 			}
 		}
 		out = append(out, mkSpec(cfg, depth))
+	}
+	// bundles of several updates - each member is judged on its own (accepted,
+	// stale, identical, suppressed as unchanged) and every leaf ends up holding
+	// ITS update, whatever happened to the members before it - and decimals
+	// written with trailing zeros (1.50 is 1.5 to a reader, but a re-sent
+	// identical update is still identical): a small alphabet of their own
+	for _, ev := range []bool{true, false} {
+		cfg := &specCfg{name: fmt.Sprintf("bundles of several updates, decimals with trailing zeros, eventDriven=%v ts=1..3 (closure)", ev), targets: []string{"t"}, eventDriven: ev, fixedClock: 2,
+			oracles: oset("errclass", "state", "latest")}
+		for _, ts := range []int64{1, 2, 3} {
+			for _, v := range []int64{1, 2} {
+				cfg.ops = append(cfg.ops, upd("t", "x", ts, v))
+			}
+			cfg.ops = append(cfg.ops, upd("t", "y/z", ts, 1),
+				op{kind: "multi", target: "t", ts: ts, ups: []updSpec{{ps("x"), 1}, {ps("y/z"), 1}}},
+				op{kind: "multi", target: "t", ts: ts, ups: []updSpec{{ps("x"), 1}, {ps("y/z"), 2}}},
+				op{kind: "multi", target: "t", ts: ts, ups: []updSpec{{ps("y/z"), 2}, {ps("x"), 2}, {ps("y/z"), 1}}})
+		}
+		for _, ts := range []int64{1, 2} {
+			cfg.ops = append(cfg.ops, upd("t", "x", ts, 1001), upd("t", "x", ts, 1002), upd("t", "x", ts, 1009))
+		}
+		cfg.ops = append(cfg.ops, del("t", "x", 2), del("t", "*", 4))
+		out = append(out, mkSpec(cfg, 40))
 	}
 	// structured kinds and NaN on one leaf: never equal for the suppression
 	// test, yet a re-sent identical notification is stale and a different one
